@@ -128,6 +128,9 @@ def generate(rng, tier):
                      'get %d 6' % other, 'read %d' % other, 'end']
             later.append(lines)
     later = rng.shuffle(later)[:dict(quick=4, thorough=len(later), search=6)[tier]]
+    # a member that came back under a new identity at the address it had: once the old identity has left, later writes still go there
+    later.append(['nodes 3', 'dist-start 0', 'dist-change 0 - 11@1,12@2', 'dist-change 0 - 14@2', 'dist-put 0 6 cc', 'dist-change 0 12@2 -',
+                  'dist-put 0 7 dd', 'get 2 7', 'read 2', 'end'])
     for lines in later:
         cases.append(['case %d cluster' % idx] + lines); idx += 1
     # random multi-step cases
@@ -167,15 +170,17 @@ def oracle(case, impl):
         if t[0] == 'dist-put' and out.startswith('recv'):
             # replicated later: every member whose storage answers must hold the write after the batch tick
             silent = {int(l.split()[1]) for l in case[:i] if l.startswith('hangnext')}
-            members = set()
+            ident = {}          # member identity -> the node (address) it lives at
             for l in case[:i]:
                 if l.startswith('dist-change'):
                     g = l.split()
-                    for x in ([] if g[2] == '-' else g[2].split(',')): members.discard(int(x.split('@')[1]))
-                    for x in ([] if g[3] == '-' else g[3].split(',')): members.add(int(x.split('@')[1]))
+                    for x in ([] if g[2] == '-' else g[2].split(',')):
+                        if ident.get(int(x.split('@')[0])) == int(x.split('@')[1]): del ident[int(x.split('@')[0])]
+                    for x in ([] if g[3] == '-' else g[3].split(',')): ident[int(x.split('@')[0])] = int(x.split('@')[1])
+            members = set(ident.values())
             got = set() if out.split()[1] == '-' else {int(x) for x in out.split()[1].split(',')}
-            if silent and (members - silent) - got:
-                bad.append('%s: the write never reached the responsive member(s) %s: not replicated later while member %s stays silent' % (line, sorted((members - silent) - got), sorted(silent)))
+            if (members - silent) - got:
+                bad.append('%s: the write never reached the responsive member(s) %s: not replicated later%s' % (line, sorted((members - silent) - got), (' while member %s stays silent' % sorted(silent)) if silent else ''))
         if t[0] == 'poll-wait' and any(l.startswith('hangnext') for l in case[:i]):
             # the repair cycle of a healthy node went round: what the issuer wrote locally is now readable there
             j = int(t[1])
